@@ -17,7 +17,7 @@ Open Scope Z_scope.
 Lemma chunk_by_ok pat (Hpat : forallb (fun k => 0 <? k) pat = true) : forall fuel cur s,
   forallb (fun k => 0 <? k) cur = true ->
   (2 * length s + (match cur with [] => 1 | _ => 0 end) <= fuel)%nat ->
-  concat (chunk_by fuel pat cur s) = s /\ chunks_ok (chunk_by fuel pat cur s).
+  concat (chunk_by fuel pat cur s) = s /\ chunks_pos (chunk_by fuel pat cur s).
 Proof.
   induction fuel as [|f IH]; intros cur s Hcur Hfuel.
   - destruct s; [split; [reflexivity|constructor]|]. cbn [length] in Hfuel. destruct cur; lia.
@@ -37,10 +37,16 @@ Proof.
       pose proof (zlen_nonneg s). lia.
 Qed.
 
+Theorem chunks_of_pos pat s :
+  all_pos pat = true -> concat (chunks_of pat s) = s /\ chunks_pos (chunks_of pat s).
+Proof.
+  intros Hpat. unfold chunks_of. apply chunk_by_ok; try exact Hpat. destruct pat; lia.
+Qed.
+
 Theorem chunks_of_ok pat s :
   all_pos pat = true -> concat (chunks_of pat s) = s /\ chunks_ok (chunks_of pat s).
 Proof.
-  intros Hpat. unfold chunks_of. apply chunk_by_ok; try exact Hpat. destruct pat; lia.
+  intros Hpat. destruct (chunks_of_pos pat s Hpat) as [H1 H2]. split; [exact H1|apply chunks_pos_ok, H2].
 Qed.
 
 (** ** the history *)
@@ -113,6 +119,17 @@ Section History.
     unfold v_stream_model, v_stream_spec. rewrite HC. rewrite Hc in HS. rewrite HS.
     unfold rd_bytes. cbn [fst]. reflexivity.
   Qed.
+  (** ... and for an explicit chunk list, empty chunks (Reads returning (0, nil)) included:
+      the operation pbcmpl.Unmarshal/chunks *)
+  Theorem v_stream_model_chunks cs t :
+    chunks_ok cs -> bytes_ok (concat cs) -> zlen (concat cs) < 2 ^ 63 ->
+    v_stream_model kind (cs, t) = v_stream_spec kind EEOF (concat cs) t.
+  Proof.
+    intros Hok Hb Hlen.
+    destruct (c_Stream_spec cs t Hok Hb Hlen) as (steps & cs' & HC & Hok' & HS).
+    unfold v_stream_model, v_stream_spec. rewrite HC, HS.
+    unfold rd_bytes. cbn [fst]. reflexivity.
+  Qed.
 End History.
 
 (** ** the other two operations of C07, at the level of the protocol values *)
@@ -124,7 +141,7 @@ Proof.
   destruct (ReadHeader_spec (chunks_of pat s) t (rd_fuel (chunks_of pat s, t)) Hok)
     as (n & ho & err & cs' & HR & Hview & _ & _).
   { rewrite Hc. exact Hb. } { rewrite Hc. exact Hlen. }
-  { unfold rd_fuel, rd_bytes. cbn [fst]. pose proof (chunks_ok_length _ Hok). lia. }
+  { unfold rd_fuel, rd_bytes. cbn [fst]. lia. }
   unfold v_readheader_model, c_ReadHeader. rewrite HR. rewrite Hc in Hview. rewrite <- Hview.
   destruct ho; reflexivity.
 Qed.
